@@ -303,23 +303,36 @@ def reusedeep(host, n):
 
 def lateconst(host, n):
     """A function-valued constant over a body that is finished only later; before that the whole graph is
-    serialized n times (each attempt is refused: the body has no outputs yet) and observed otherwise."""
+    serialized n times (each attempt is refused: the body has no outputs yet) and observed otherwise.  Under the
+    module host the constant is the only thing in the module at that time, so the refusal comes from the body."""
     from hugr import tys, val
     from hugr.build.dfg import Dfg
+    from hugr.build.function import Module
     from hugr.std.logic import Not
 
-    m, d = _host(host, [tys.Bool])
-    (a,) = d.inputs()
     body = Dfg(tys.Bool)
     x = body.add(Not(body.inputs()[0]), metadata={"in-body": n})
-    c = d.add_const(val.Function(body.hugr))
-    for _ in range(n):
-        for f in (lambda: d.hugr.to_json(), lambda: d.hugr.render_dot(), lambda: d.hugr.port_kind(c.out(0)), lambda: d.hugr.to_model()):
-            try:
-                f()
-            except Exception:  # noqa: BLE001
-                pass
-    body.set_outputs(x)
+
+    def look(h, c):
+        for _ in range(n):
+            for f in (lambda: h.to_json(), lambda: h.render_dot(), lambda: h.port_kind(c.out(0)), lambda: h.to_model()):
+                try:
+                    f()
+                except Exception:  # noqa: BLE001
+                    pass
+
+    if host == "fn":
+        m = Module()
+        c = m.add_const(val.Function(body.hugr))
+        look(m.hugr, c)
+        body.set_outputs(x)
+        d = m.define_main([tys.Bool])
+    else:
+        m, d = None, Dfg(tys.Bool)
+        c = d.add_const(val.Function(body.hugr))
+        look(d.hugr, c)
+        body.set_outputs(x)
+    (a,) = d.inputs()
     fv = d.load(c)
     d.set_outputs(a, fv)
     return _finish(m, d)
